@@ -286,6 +286,8 @@ func compCases() []C05Comp {
 		}
 		if c.style == "form" || c.style == "simple" || c.style == "label" {
 			out = append(out, C05Comp{c.in, c.style, c.explode, "allOf", int64(5)})
+			// a member that only constrains (no type) does not say how the text is read: the other member does
+			out = append(out, C05Comp{c.in, c.style, c.explode, "allOf-typeless-last", int64(5)}, C05Comp{c.in, c.style, c.explode, "allOf-typeless-first", int64(5)})
 		}
 	}
 	return out
@@ -302,6 +304,10 @@ func runComp(c *C05Comp) (sig, detail string) {
 		s = openapi3.NewOneOfSchema(other, arr)
 	case "anyOf":
 		s = openapi3.NewAnyOfSchema(arr, other)
+	case "allOf-typeless-last":
+		s = openapi3.NewAllOfSchema(openapi3.NewIntegerSchema(), openapi3.NewSchema().WithMin(1))
+	case "allOf-typeless-first":
+		s = openapi3.NewAllOfSchema(openapi3.NewSchema().WithMin(1), openapi3.NewIntegerSchema())
 	default:
 		s = openapi3.NewAllOfSchema(openapi3.NewIntegerSchema(), openapi3.NewIntegerSchema().WithMin(1))
 	}
